@@ -5,7 +5,9 @@ class C08(Prop):
     ID = "C08"
     THEOREMS = ["C08_sweep_eq_rle_depth", "C08_accepted_valid", "C08_ordered_disjoint", "C08_len_le_res", "C08_partition", "C08_stats",
                 "C08_tiling_terminates", "C08_levels_increasing", "C08_file_levels", "C08_file_levels_increasing", "C08_zoom_query",
-                "C08_zoom_query_complete", "C08_geometry_any_mode", "C08_level_sections_sorted", "C08_zoom_query_sections"]
+                "C08_zoom_query_complete", "C08_geometry_any_mode", "C08_level_sections_sorted", "C08_zoom_query_sections",
+                # the IEEE run is the exact run below 2^53 (Proofs/FloatExactBed.v)
+                "C08_records_ieee", "C08_stats_ieee"]
     RULE = ("bigBed cases: 1-6 chromosomes, per chromosome a start-sorted BED layout from the grammar disjoint/partly overlapping/"
             "nested/identical/zero-length/very-long-then-short/dense/gaps of every size relative to the first resolution "
             "(0, 1, r-1, r, r+1, 2r, 3r+1), options compress x items_per_slot{1,2,3,7,1024} x zoom lists (automatic; small automatic; "
